@@ -53,7 +53,7 @@ var zzFroms = []gatewayv1.FromNamespaces{gatewayv1.NamespacesFromSame, gatewayv1
 // the labels of the route's namespace.
 func VerifC10_ListenerAllowed() {
 	cache := &zzCache{}
-	c := &converter{logger: zzLogger{}, cache: cache}
+	c := NewGatewayConverter(&convtypes.ConverterOptions{Logger: zzLogger{}, Cache: cache}, nil, nil, nil).(*converter)
 	gwns := "gwns"
 	routens := []string{"gwns", "other"}[nd.Choice("route.ns", 2)]
 	kind := []string{"HTTPRoute", "TCPRoute"}[nd.Choice("route.kind", 2)]
@@ -148,7 +148,7 @@ func VerifC10_ParentRefs() {
 		}
 	}
 	cache.gwErr = nd.Bool("gw.err")
-	c := &converter{logger: zzLogger{}, cache: cache}
+	c := NewGatewayConverter(&convtypes.ConverterOptions{Logger: zzLogger{}, Cache: cache}, nil, nil, nil).(*converter)
 	routens := []string{"gwns", "other"}[nd.Choice("route.ns", 2)]
 	route := &source{kind: "HTTPRoute", namespace: routens, name: "r"}
 
@@ -254,7 +254,7 @@ func VerifC10_ParentRefs() {
 // listener performs when it is considered.
 func VerifC10_SectionName() {
 	cache := &zzCache{nsLabels: map[string]string{"env": "prod"}}
-	c := &converter{logger: zzLogger{}, cache: cache}
+	c := NewGatewayConverter(&convtypes.ConverterOptions{Logger: zzLogger{}, Cache: cache}, nil, nil, nil).(*converter)
 	from := gatewayv1.NamespacesFromSelector
 	mk := func(name string) gatewayv1.Listener {
 		return gatewayv1.Listener{Name: gatewayv1.SectionName(name), AllowedRoutes: &gatewayv1.AllowedRoutes{
